@@ -17,6 +17,7 @@ Pipeline (Go-first, one TLC judgement pass; DESIGN 3.2):
 A rejected case is re-executed and re-validated alone with the strict config before it is reported.
 """
 import concurrent.futures
+import hashlib
 import json
 import os
 import random
@@ -31,11 +32,11 @@ PKG = "felix/dataplane/windows"
 
 # (cfg, how many layouts to replay in quick / thorough; None = all)
 ENUM = {
-    "quick": [("Gen_Win_q2.cfg", 120)],
-    "thorough": [("Gen_Win_q2.cfg", None), ("Gen_Win_q.cfg", 5000), ("Gen_Win_m14.cfg", 1200),
-                 ("Gen_Win_m25.cfg", 1200), ("Gen_Win_m36.cfg", 1200)],
+    "quick": [("Gen_Win_quick.cfg", 130)],
+    "thorough": [("Gen_Win_all2.cfg", 2400), ("Gen_Win_q.cfg", 2000), ("Gen_Win_m14.cfg", 400), ("Gen_Win_m16.cfg", 400),
+                 ("Gen_Win_m25.cfg", 400), ("Gen_Win_m36.cfg", 400), ("Gen_Win_m27.cfg", 400)],
 }
-SIZES = {"quick": dict(n=24, nbig=2, shards=4), "thorough": dict(n=900, nbig=10, shards=4)}
+SIZES = {"quick": dict(n=20, nbig=2, shards=4), "thorough": dict(n=500, nbig=10, shards=4)}
 
 
 def _scale(x):
@@ -47,22 +48,42 @@ def _scale(x):
 
 def _enumerate(ctx, plan):
     """Leg A: TLC enumerates the small-scope layouts; returns {"alphabet":..., "layouts":[...]}."""
-    alphabet, layouts, info = {}, [], []
+    alphabet, sets, layouts, info = {}, {}, [], []
     rnd = random.Random(ctx.seed)
 
     def one(item):
+        # the enumeration is a pure function of the generator spec and its config: keep TLC's output between runs
         cfg, _ = item
-        return core.tlc(SPEC, "Gen_Win", cfg, workers=1, timeout=900, heap="4g")
+        h = hashlib.sha1()
+        for d, names in ((os.path.join(core.SPECS, SPEC), ["Gen_Win.tla", "WinSem.tla", cfg]),
+                         (os.path.join(core.SPECS, "lib"), ["PolicySem.tla", "PolicyProbes.tla", "HNS.tla", "Nets.tla"])):
+            for nme in names:
+                h.update(open(os.path.join(d, nme), "rb").read())
+        cache = os.path.join(core.WORK, "c30-enum-%s-%s.json" % (cfg, h.hexdigest()[:16]))
+        if os.path.exists(cache):
+            try:
+                return json.load(open(cache))
+            except ValueError:
+                pass
+        r = core.tlc(SPEC, "Gen_Win", cfg, workers=1, timeout=900, heap="4g")
+        if r.violated or r.error or not r.behaviours:
+            raise HarnessError("Gen_Win %s failed: %s\n%s" % (cfg, r.violated or r.error, r.out[-1500:]))
+        tmp = "%s.%d" % (cache, os.getpid())
+        json.dump(r.behaviours, open(tmp, "w"))
+        os.replace(tmp, cache)
+        return r.behaviours
 
     with concurrent.futures.ThreadPoolExecutor(max_workers=3) as ex:
         results = list(ex.map(one, plan))
-    for (cfg, take), r in zip(plan, results):
-        if r.violated or r.error:
-            raise HarnessError("Gen_Win %s failed: %s\n%s" % (cfg, r.violated or r.error, r.out[-1500:]))
-        al = [b["alphabet"] for b in r.behaviours if "alphabet" in b]
-        ls = [b["layout"] for b in r.behaviours if "layout" in b]
+    for (cfg, take), behs in zip(plan, results):
+        al = [b["alphabet"] for b in behs if "alphabet" in b]
+        for b in behs:
+            for k, v in b.get("sets", {}).items():
+                if sets.setdefault(k, v) != v:
+                    raise HarnessError("IP set %s differs between two alphabets" % k)
+        ls = [b["layout"] for b in behs if "layout" in b]
         if len(al) != 1 or not ls:
-            raise HarnessError("Gen_Win %s printed no layouts:\n%s" % (cfg, r.out[-1500:]))
+            raise HarnessError("Gen_Win %s printed no layouts" % cfg)
         for k, v in al[0].items():
             if alphabet.setdefault(k, v) != v:
                 raise HarnessError("rule code %s means different rules in two alphabets" % k)
@@ -72,7 +93,7 @@ def _enumerate(ctx, plan):
         layouts += ls
         info.append({"cfg": cfg, "layouts_enumerated": total, "replayed": len(ls), "exhaustive": len(ls) == total})
         log("enumerated %d layouts (%s), replaying %d" % (total, cfg, len(ls)))
-    return {"alphabet": alphabet, "layouts": layouts}, info
+    return {"alphabet": alphabet, "sets": sets, "layouts": layouts}, info
 
 
 def _generate(ctx, beh_path, n, nbig, out, classes=None):
@@ -194,7 +215,7 @@ def run(ctx, n=None, nbig=None, enum=None, classes=None, corrupt=None):
     classes = classes or os.environ.get("VERIF_C30_CLASSES") or None      # development knob: random classes to generate
 
     # (the models' own unit tests, specs/winpol/MC_HNS, are ASSUMEs evaluated at the start of every T_Win run)
-    beh, info = _enumerate(ctx, plan) if plan else ({"alphabet": {}, "layouts": []}, [])
+    beh, info = _enumerate(ctx, plan) if plan else ({"alphabet": {}, "sets": {}, "layouts": []}, [])
     beh_path = os.path.join(ctx.work, "behaviours.json")
     json.dump(beh, open(beh_path, "w"))
     ctx.notes["behaviours_from_tlc"] = len(beh["layouts"])
@@ -202,8 +223,11 @@ def run(ctx, n=None, nbig=None, enum=None, classes=None, corrupt=None):
 
     cases = os.path.join(ctx.work, "cases.ndjson")
     trace = os.path.join(ctx.work, "trace.ndjson")
+    t0 = time.time()
     _generate(ctx, beh_path if beh["layouts"] else None, n, nbig, cases, classes)
+    t1 = time.time()
     _execute(ctx, cases, trace)
+    log("stages: enumerate %.0fs, generate %.0fs, build+execute real code %.0fs" % (t0 - ctx.t0, t1 - t0, time.time() - t1))
     lines = [l for l in open(trace).read().splitlines() if l]
     if corrupt:
         lines = corrupt(lines)
